@@ -16,6 +16,21 @@ CHECK = {
     },
     "units": [
         {
+            # the real runCommand path: real server processes (the test binary re-executed) that die, garble or stall at start-up
+            "name": "c11-osproc", "pkg": CC, "harness": ["connectconformance/osproc_test.go", "connectconformance/c10_test.go", "connectconformance/c05_test.go", "connectconformance/peersim_test.go", "connectconformance/c11_test.go", "connectconformance/fakeproc_test.go", "connectconformance/gateutil_test.go"],
+            "test": "^TestVerifOSProcRun$",
+            "shards": {"quick": 28, "thorough": 32},  # the runs mostly sleep (the runner's 5-20 s timeouts), so more shards than cores
+            "budget_s": {"quick": 120, "thorough": 600},
+        },
+        {
+            # the shared client process fails while one or two batches are in flight (scenarios of the C05 harness)
+            "name": "c11-clientfaults", "pkg": CC, "rewrite": [CC],
+            "harness": ["connectconformance/c05_test.go", "connectconformance/peersim_test.go", "connectconformance/c11_test.go", "connectconformance/fakeproc_test.go", "connectconformance/gateutil_test.go"],
+            "test": "^TestVerifC11ClientFaults$", "gomaxprocs": 1,
+            "shards": {"quick": 16, "thorough": 16},
+            "budget_s": {"quick": 80, "thorough": 900},
+        },
+        {
             "name": "c11-gate", "pkg": CC, "rewrite": [CC],
             "harness": ["connectconformance/c11_test.go", "connectconformance/fakeproc_test.go", "connectconformance/gateutil_test.go"],
             "test": "^TestVerifC11$", "gomaxprocs": 1,
